@@ -211,8 +211,20 @@ class Creators:
   def __add_line_GFA1(self, gfa_line):
     if isinstance(gfa_line, str):
       if self.__record_type_of_string(gfa_line) == "S":
-        gfa_line = gfapy.Line(gfa_line, vlevel=self._vlevel,
-            dialect=self._dialect)
+        string = gfa_line
+        try:
+          gfa_line = gfapy.Line(string, vlevel=self._vlevel,
+              dialect=self._dialect)
+        except gfapy.FormatError:
+          # a GFA2 segment whose sequence looks like a tag is taken for a
+          # (malformed) GFA1 segment
+          try:
+            gfa_line = gfapy.Line(string, vlevel=max(self._vlevel, 1),
+                version="gfa2", dialect=self._dialect)
+          except gfapy.Error:
+            gfa_line = None
+          if gfa_line is None:
+            raise
       else:
         gfa_line = gfapy.Line(gfa_line, vlevel=self._vlevel,
             dialect=self._dialect, version="gfa1")
